@@ -44,13 +44,13 @@ static void add_seed_file(int t, const char *path, size_t maxn)
 }
 
 static const char *dict_tok[NT][48] = {
-    { "#JSGF V1.0;", "grammar g;", "public", "<a>", "<b>", "=", ";", "|", "(", ")", "[", "]", "*", "+", "{tag}", "/2/", "/0.5/", "/1e-3/", "/0/", "/5/", "<NULL>", "<VOID>", "import <x.y>;", "//c\n", "/*", "*/", "\"q s\"", "go", "forward", "\xef\xbb\xbf", "<a.b>", "<g.a>", "{", "}", "\\", "/", "<>", "< >", NULL },
-    { "FSG_BEGIN", "FSG_END", "NUM_STATES", "START_STATE", "FINAL_STATE", "TRANSITION", "N", "S", "F", "T", "#", "0", "1", "2", "0.5", "1.0", "1e-10", "go", "forward", "\n", " ", "\t", "-1", "2147483648", "4294967295", "99999999999", "0.0", "1.5", "nan", "inf", "1e400", "FSG_BEGIN x\n", NULL },
-    { "go G OW\n", "a AH\n", "a(2) EY\n", "<sil> SIL\n", "##", ";;", "(", ")", "(2)", " ", "\t", "\n", "G", "OW", "QQ", "+NSN+", "SIL", "x(", "x()", "x(2", "(2)", "\r\n", NULL },
+    { "#JSGF V1.0;", "grammar g;", "public", "<a>", "<b>", "=", ";", "|", "(", ")", "[", "]", "*", "+", "{tag}", "/2/", "/0.5/", "/1e-3/", "/0/", "/5/", "<NULL>", "<VOID>", "import <x.y>;", "//c\n", "/*", "*/", "\"q s\"", "go", "forward", "\xef\xbb\xbf", "<a.b>", "<g.a>", "{", "}", "\\", "/", "<>", "< >", "%s", "<%n>", "%5000d", NULL },
+    { "FSG_BEGIN", "FSG_END", "NUM_STATES", "START_STATE", "FINAL_STATE", "TRANSITION", "N", "S", "F", "T", "#", "0", "1", "2", "0.5", "1.0", "1e-10", "go", "forward", "\n", " ", "\t", "-1", "2147483648", "4294967295", "99999999999", "0.0", "1.5", "nan", "inf", "1e400", "FSG_BEGIN x\n", "%s", "%n", "%s%s%s%s", NULL },
+    { "go G OW\n", "a AH\n", "a(2) EY\n", "<sil> SIL\n", "##", ";;", "(", ")", "(2)", " ", "\t", "\n", "G", "OW", "QQ", "+NSN+", "SIL", "x(", "x()", "x(2", "(2)", "\r\n", "%s", "%n", "w%sx", NULL },
     { "{", "}", "\"", ":", ",", "true", "false", "null", "samprate", "beam", "hmm", "loglevel", "INFO", "16000", "1e-48", "-1", "\\n", "\\u0041", "\\ud800", "\\", "[", "]", "1e999", "-0", "0x10", "nfft", "dict", "cmn", "lw", " ", "\n", "\"beam\": 1e-48", "beam: 1e-20", "remove_noise: yes", "compallsen", "yes", "no", "\\b", "\x08", "\\b\\b\\b\\b\\b\\b\\b\\b", "\x08\x08\x08\x08\x08\x08\x08\x08", "\\f\\f\\f\\f\\f\\f", "\\u0001\\u0001\\u0001\\u0001", "warp_params", "nfilt", "wlen", NULL },
-    { "go", "forward", "ten", "meters", " ", "\t", "\n", "\r", "a", "the(2)", "<sil>", "[NOISE]", "(NULL)", "zzzzqq", "", NULL },
-    { "go", "x", "x(2)", "G OW", "AH", "F AO R W ER D", " ", "  ", "\t", "QQ", "SIL", "+NSN+", "(", ")", "", "B D", NULL },
-    { "40,3,-1", ",", "1e308", "-1e308", "nan", "inf", "0", "1", " ", "40", "3", ",,,,,,,,,,,,,,,,,,,,,,,,,,,,,,,,,,,,,", "-", "e", ".", "0x1p3", NULL },
+    { "go", "forward", "ten", "meters", " ", "\t", "\n", "\r", "a", "the(2)", "<sil>", "[NOISE]", "(NULL)", "zzzzqq", "", "%s", "%n", "100%", "%s%s%s%s%s%s", "%999999d", "x%hhn", NULL },
+    { "go", "x", "x(2)", "G OW", "AH", "F AO R W ER D", " ", "  ", "\t", "QQ", "SIL", "+NSN+", "(", ")", "", "B D", "%s", "%n", "Q%sQ", NULL },
+    { "40,3,-1", ",", "1e308", "-1e308", "nan", "inf", "0", "1", " ", "40", "3", ",,,,,,,,,,,,,,,,,,,,,,,,,,,,,,,,,,,,,", "-", "e", ".", "0x1p3", "%s", "%n", NULL },
 };
 
 static long ncases(int tier, long req) { if (req >= 0) return req; return tier ? 400000 : 24000; }
@@ -58,7 +58,8 @@ static long ncases(int tier, long req) { if (req >= 0) return req; return tier ?
 static void setup(void)
 {
     char *p;
-    err_set_loglevel(ERR_FATAL);
+    /* messages at the library's default level are formatted and read by a sink: texts taken from the input reach the log */
+    vd_loglevel = "WARN"; vh_log_sink(ERR_WARN);
     vd_init();
     add_seed_file(T_JSGF, vh_path("%s/tests/data/goforward.gram", vh_repo), 1 << 20);
     add_seed_file(T_JSGF, vh_path("%s/tests/data/pizza.gram", vh_repo), 1 << 20);
@@ -275,7 +276,7 @@ static void run_target(int t, const char *in, size_t n, vh_rng *r)
             /* the signal-processing objects built from it */
             {
                 fe_t *fe; feat_t *fcb;
-                config_set_str(cf, "loglevel", "FATAL"); config_set_str(cf, "lda", NULL);
+                config_set_str(cf, "loglevel", "WARN"); config_set_str(cf, "lda", NULL);
                 vh_ctx("fe_init"); fe = fe_init(cf);
                 if (fe) {
                     static int16 buf[9000]; int16 *pp = buf; size_t ns = 9000; int q, osz, room = 16; mfcc_t **cep;   /* longer than any window the FFT limit allows plus one shift */
